@@ -23,9 +23,10 @@ theorem gross_window {x y a c n s k : Nat}
     n + k = y * a / (x + a) + (if inWindow x y a then 1 else 0) :=
   Halo.C01.gross_window h
 
-/-- the window needs a deep pool: it is empty whenever `x + a ≤ 10^18` -/
-theorem window_needs_depth {x y a : Nat} (h : inWindow x y a = true) : E < x + a :=
-  Halo.C01.window_needs_depth h
+/-- the window needs a deep pool: it is empty whenever `x + a ≤ 10^18`
+(`0 < x + a` excludes the degenerate `x = a = 0`, on which `compute_swap` aborts anyway) -/
+theorem window_needs_depth {x y a : Nat} (hD : 0 < x + a) (h : inWindow x y a = true) : E < x + a :=
+  Halo.C01.window_needs_depth hD h
 
 /-- C01 outside the window -/
 theorem C01_partial {x y a c n s k : Nat}
@@ -37,10 +38,7 @@ theorem C01_partial {x y a c n s k : Nat}
 theorem C01_partial_shallow {x y a c n s k : Nat}
     (h : computeSwap x y a c = .ok (n, s, k)) (hd : x + a ≤ E) :
     Spec.c01 x y a n = true :=
-  Halo.C01.c01_of_not_window h (by
-    cases hw : inWindow x y a
-    · rfl
-    · exact absurd (Halo.C01.window_needs_depth hw) (by omega))
+  Halo.C01.c01_of_shallow h hd
 
 /-- C01 whenever a non-zero commission is charged: the commission absorbs the extra unit -/
 theorem C01_partial_commission {x y a c n s k : Nat}
